@@ -1017,6 +1017,36 @@ func modeTotal(seed uint64, n int, out *sx.Out) {
 			}
 		}
 	}
+	// the three header words (list, action, field count) of two typical rules given every small value and the usual large ones:
+	// lists and actions the package does not know, counts beyond the table
+	for _, base := range []string{"-a always,exit -F uid=0 -S open -k k", "-w /etc/passwd -p wa -k w"} {
+		b, err := buildLine(base)
+		if err != nil {
+			out.Case(fmt.Sprintf("TLine %s OPanic", cs("header-word sweep: base rule not built: "+base)), map[string]interface{}{"line": base, "err": err.Error()}, "header-word-sweep/base-not-built", true)
+			continue
+		}
+		var vals []uint32
+		for v := uint32(0); v <= 70; v++ {
+			vals = append(vals, v)
+		}
+		vals = append(vals, 255, 256, 0x7fffffff, 0x80000000, 0xfffffffe, 0xffffffff)
+		for w := 0; w < 3; w++ {
+			for _, v := range vals {
+				m := append([]byte(nil), b...)
+				binary.LittleEndian.PutUint32(m[4*w:], v)
+				for _, resolve := range []bool{false, true} {
+					resolve := resolve
+					out.Begin(map[string]interface{}{"mode": "modeTotal", "call": fmt.Sprintf("rule.ToCommandLine(wire, %v)", resolve), "base": base, "header_word": w, "value": v, "wire_hex": hex.EncodeToString(m)})
+					oc, detail := guarded(func() (string, error) { return rule.ToCommandLine(rule.WireFormat(m), resolve) })
+					if resolve {
+						out.Case(fmt.Sprintf("TLine %s %s", cs(fmt.Sprintf("resolveIds=true header word %d = %d of %s", w, v, base)), oc), map[string]interface{}{"line": base, "header_word": w, "value": v, "resolveIds": true, "outcome": oc, "detail": detail}, "header-word-sweep-resolved/"+oc, oc != "OPanic")
+					} else {
+						out.Case(fmt.Sprintf("TWire %s %s", sx.Hx(m), oc), map[string]interface{}{"line": base, "header_word": w, "value": v, "outcome": oc, "detail": detail}, "header-word-sweep/"+oc, oc == "OOk" || oc == "OErr")
+					}
+				}
+			}
+		}
+	}
 	// every string-valued field of a few typical rules given each small or off-by-one length (an empty path in a watch,
 	// a key cut to nothing): the decoder indexes into these strings
 	for bi, base := range []string{
